@@ -99,6 +99,14 @@ func Programs() []Input {
 	binProg = append(binProg, '\n')
 	binProg = append(binProg, trailer...)
 	out = append(out, Input{Name: "eexec-binary", Kind: "ps", Data: binProg})
+	// tiny eexec programs: the whole stream fits into the scanner's first buffer fill
+	tinyPlain := []byte("/t 3 def /u (xy) def mark currentfile closefile\n")
+	out = append(out, Input{Name: "eexec-hex-tiny", Kind: "ps", Data: append(append([]byte("%!PS\ncurrentfile eexec\n"), Hex(Eexec(tinyPlain))...), "cleartomark /after 1 def\n"...)})
+	tb := append([]byte("%!PS\ncurrentfile eexec\n"), Eexec(tinyPlain)...)
+	out = append(out, Input{Name: "eexec-binary-tiny", Kind: "ps", Data: append(tb, "\ncleartomark /after 1 def\n"...)})
+	// a program that starts with %! and is fed in pieces (CheckStart applies to the first piece only)
+	cs := tokenised("percent-bang-header", "%!PS-Adobe-3.0\n", "/a", "1", "def", "{", "a", "2", "add", "}", "exec", "[", "a", "a", "]", "length")
+	out = append(out, cs)
 	// a long program that crosses several 512-byte refills
 	var long []string
 	for i := 0; i < 260; i++ {
